@@ -242,7 +242,7 @@ func runC15(c *core.Ctx) error {
 	avoid := c.KF.Avoid()
 	total := c.Pick(100, 1500)
 	chunks := c.Pick(5, 30)
-	c.Ev.Coverage.Rule = "cases = (valid schema from the full profile, second schema with disjoint package) x plugin x variation in {rerun in fresh processes at GOMAXPROCS 1/4/16 (fresh map seeds), extra unrelated files in proto_file, single- vs multi-package invocation in both orders, file_to_generate reversed, each file of a multi-file package generated alone vs all together, semantics-preserving parameter spellings}; oracle = byte equality per generated file name. Non-trivial = schema emitting >= 2 files for the plugin, or with >= 3 headers, >= 2 enums, a second file, or unwrap; distinct by (schema, plugin, variation)."
+	c.Ev.Coverage.Rule = "cases = (valid schema from the full profile, second schema with disjoint package) x plugin x variation in {rerun in fresh processes at GOMAXPROCS 1/4/16 (fresh map seeds), extra unrelated files in proto_file, single- vs multi-package invocation in both orders, file_to_generate reversed, each file of a multi-file package generated alone vs all together, semantics-preserving parameter spellings}; oracle = byte equality per generated file name; for files generated one by one additionally: no output file is emitted by two different single-file runs and together they yield as many files as the joint run. Non-trivial = schema emitting >= 2 files for the plugin, or with >= 3 headers, >= 2 enums, a second file, or unwrap; distinct by (schema, plugin, variation)."
 	c.Ev.Assumptions = []string{"map-order nondeterminism is probabilistic: each rerun is a fresh process with a fresh hash seed", "only parameter spellings the plugins document as equivalent are compared"}
 	prof := schema.ProfileFull(avoid)
 	for k := 0; k < chunks; k++ {
